@@ -24,8 +24,8 @@ CHECKS = {
    text="All formula trees of depth <=1, all binary depth-2 trees (thorough; 1/12 systematic sample in quick) and sampled depth 3-4 trees are built through add_* and compared under all 36 valuations with the reference value of the unsimplified tree, both as objects and through translate_formula + our SMT-LIB reader; == of constructed formulas implies equal truth tables on all ordered pairs of depth-1 formulas.",
    note="trusts vlib/smt.py evaluator; Bool/Int disjoint", ref="3/C18"),
  "C05": dict(cat="exploration", tech="mutation workload with concrete distinguishing states from a reference interpreter, fed to the tool's own checker; reflexivity monitor",
-   text="Generated blocks are paired with semantic mutants (operand swap, opcode substitution incl. signed/unsigned/shift kinds and split instructions, constant change, dropped/swapped/duplicated store, DUP/SWAP index) for which the reference interpreter found a distinguishing state; compare_asm_block_asm_format must reject every such pair, accept (B,B) and never raise.",
-   note="only witnessed mutants count; out-of-gas halts of dead accesses are not counted as a difference; the forves adapter is not exercised yet", ref="3/C05"),
+   text="Generated blocks are paired with semantic mutants (operand swap, opcode substitution incl. signed/unsigned/shift kinds and split instructions, constant change, dropped/swapped/duplicated store, DUP/SWAP index, reordered or moved stack-neutral statements) for which the reference interpreter found a distinguishing state; compare_asm_block_asm_format must reject every such pair, accept (B,B) and never raise.",
+   note="only witnessed mutants count; out-of-gas halts of dead accesses are not counted as a difference; the forves adapter's rendering (forves_format) is re-read and compared segment by segment, the external binary itself is not run", ref="3/C05"),
  "C16": dict(cat="exploration", tech="witness search (greedy result, symbolic replay of the original, bounded complete synthesizer) against the published bounds of every emitted specification",
    text="For every specification emitted for generated blocks a realizing sequence within (init_progr_len, max_sk_sz) is searched; non-existence is reported only after a complete bounded search; min_length is compared with every realizing sequence seen and original_instrs with our segmentation.",
    note="trusts vlib/sfs_eval.realizes/synthesize; specs too large for a complete search and without witness are inconclusive (counted)", ref="3/C16"),
